@@ -85,6 +85,48 @@ HAND_TEXTS = [
 ]
 
 
+# how a field's type may be written: every syntactic class of type, behind custom methods (so that no trait bound on the
+# type itself is needed) -- whatever the macro builds around the written type (references, helper impls, where-clauses)
+# must still be a type
+TYPE_PRELUDE = (
+    "pub trait Tr { type Out; }\nimpl Tr for u8 { type Out = u16; }\npub trait Ob {}\n"
+    "#[allow(unused_macros)]\nmacro_rules! ty_mac { () => { u8 } }\n"
+    "pub fn dm<T: ?Sized>(_v: &T, f: &mut ::core::fmt::Formatter<'_>) -> ::core::fmt::Result { f.write_str(\"m\") }\n"
+    "pub fn em<T: ?Sized>(_a: &T, _b: &T) -> bool { true }\n"
+    "pub fn pm<T: ?Sized>(_a: &T, _b: &T) -> ::core::option::Option<::core::cmp::Ordering> { ::core::option::Option::Some(::core::cmp::Ordering::Equal) }\n"
+    "pub fn om<T: ?Sized>(_a: &T, _b: &T) -> ::core::cmp::Ordering { ::core::cmp::Ordering::Equal }\n"
+    "pub fn hm<T: ?Sized, S: ::core::hash::Hasher>(_v: &T, s: &mut S) { s.write_u8(1) }\n")
+# (PartialOrd is educed through Ord when both are: one attribute serves both)
+TYPE_ATTR = "#[educe(Debug(method(dm)), PartialEq(method(em)), Ord(method(om)), Hash(method(hm)))]"
+TYPES_UNSIZED = [
+    "dyn Ob + Send", "dyn Ob + 'static", "dyn Send + Ob + Sync", "dyn for<'x> Fn(&'x u8) -> u8 + Send", "dyn Ob", "[u8]", "str",
+    "[&'static (dyn Ob + Send)]",
+]
+TYPES_SIZED = [
+    "&'static (dyn Ob + Send)", "::std::boxed::Box<dyn Ob + Send>", "fn(u8) -> u8", "for<'x> fn(&'x u8) -> &'x u8", "*const u8",
+    "*mut (dyn Ob + Send)", "(u8, u16)", "()", "[u8; 2]", "[[u8; 2]; 3]", "<u8 as Tr>::Out", "ty_mac!()", "&'static mut u8",
+    "&'static &'static u8", "::core::option::Option<fn() -> u8>", "unsafe extern \"C\" fn(u8) -> u8", "&'static [u8]", "&'static str",
+    "::core::marker::PhantomData<dyn Ob + Send>",
+]
+
+
+def type_syntax_cases():
+    out = []
+    head = "#[derive(::educe::Educe)]\n#[educe(Debug, PartialEq, Eq, PartialOrd, Ord, Hash)]\n"
+    for i, t in enumerate(TYPES_UNSIZED + TYPES_SIZED):
+        texts = [("struct", "pub struct Ty {\n    pub a: u8,\n    %s\n    pub b: %s,\n}\n" % (TYPE_ATTR, t)),
+                 ("tuple", "pub struct Ty(pub u8, %s pub %s);\n" % (TYPE_ATTR, t)),
+                 ("plain-debug-name-false", None)]
+        if t in TYPES_SIZED:
+            texts.append(("enum", "pub enum Ty {\n    V(u8, %s %s),\n    W { %s x: %s, y: u8 },\n    U,\n}\n" % (TYPE_ATTR, t, TYPE_ATTR, t)))
+        for shape, body in texts:
+            if body is None:
+                continue
+            text = TYPE_PRELUDE + head + body
+            out.append(("ty%d_%s" % (i, shape), TextTd("type-syntax/" + shape, text), text))
+    return out
+
+
 def hand_cases():
     return [("hand_%s" % cid.replace("-", "_"), TextTd("hand/" + cid, text), text) for cid, text in HAND_TEXTS]
 
@@ -236,7 +278,7 @@ def main(tier, seed, scale=1.0):
         cases = [("b%d_%s" % (k, cid), td, text) for cid, td, text in cases]
         cases += [("b%d_%s" % (k, cid), td, text) for cid, td, text in family_cases(seed * 1000003 + k, len(cases) // 16)]
         if k == 0:
-            cases += hand_cases()
+            cases += hand_cases() + type_syntax_cases()
         run_cases(chk, cases, edition15=(k == 0))
         k += batch
     chk.extra["d1_crates"] = (n + batch - 1) // batch
